@@ -446,8 +446,9 @@ func runOne(t *testing.T, tr *drv.Tracer, sid int, sched []drv.Step) (hung bool)
 		switch drv.Str(st["ev"]) {
 		case "Start":
 			var err error
+			e.log(drv.Step{"ev": "Start"}) // the clients dial before StartListener returns
 			lst, err = sse.StartListener(ctx, cl, addrs, strs(cfg["headers"]))
-			e.log(drv.Step{"ev": "Start", "ok": err == nil})
+			e.log(drv.Step{"ev": "Started", "ok": err == nil})
 			if err != nil {
 				lst = nil
 			}
@@ -492,6 +493,12 @@ func runOne(t *testing.T, tr *drv.Tracer, sid int, sched []drv.Step) (hung bool)
 				}
 				if n := strings.Count(string(m.b), "\n"); n != len(ln) {
 					t.Fatalf("schedule %d: chunk %q completes %d lines, annotated %d", sid, m.b, n, len(ln))
+				}
+				if c.pend != (st["cont"] == true) {
+					// the chunk continues a line whose beginning went to another connection (or nowhere): its descriptors
+					// do not describe what this connection would read
+					e.log(drv.Step{"ev": "Skip", "a": a})
+					break
 				}
 				if len(m.b) > 0 {
 					c.pend = m.b[len(m.b)-1] != '\n'
